@@ -10,7 +10,7 @@ def run(tier):
                    what='eval(serialize_to_python(v)) == v (same type) for str/int/bool/None/class values alone and in list, tuple, dict, OrderedDict, list of tuples, dict of lists (0-2 elements)',
                    bounds='7 container shapes x 5 leaf kinds^2 x pools (10 strings incl. quotes, backslash, newline, non-ASCII, %s, {}; 4 ints incl. 2^63-1; 4 classes)',
                    functions=SER),
-        Obligation('py_q', 'harness/c13.py', 'h_py_q', timeout=400,
+        Obligation('py_q', 'harness/c13.py', 'h_py_q', timeout=(400 if tier == 'quick' else 900),
                    partitions=[[c, n] for c in range(3) for n in range(3)],
                    what='Q trees of depth <= 2 (AND/OR/XOR, negation at both levels, 0-2 children, lookups or nested Q incl. single-child nesting): the rendered text evaluates to a Q with the same normal form',
                    bounds='3 connectors x neg x 0-2 children (lookup|nested) x inner 3 connectors x neg x 1-2 lookups; lookup values from {str, int} pools of 2-3',
@@ -18,7 +18,7 @@ def run(tier):
         Obligation('py_expr', 'harness/c13.py', 'h_py_expr', timeout=300, partitions=[[k] for k in range(12)],
                    what='F, Value, combined expressions, Deferrable, UniqueConstraint, Index with condition: rendered text evaluates to an object with equal deconstruction; bare and inside the dict/list shapes ChangeMeta uses',
                    bounds='12 kinds (incl. nested combined expressions needing grouping, sets) x pools x 4 field names x 3 wrappers', functions=SER),
-        Obligation('content', 'harness/c13.py', 'h_content', timeout=400, partitions=[[k] for k in range(16)],
+        Obligation('content', 'harness/c13.py', 'h_content', timeout=(400 if tier == 'quick' else 900), partitions=[[k] for k in range(16)],
                    what='get_evolution_content() text exec()s in a fresh namespace and defines MUTATIONS of equal type and equal re-rendered hint; single mutations also have equal simulate() effect on a base signature',
                    bounds='16 mutation shapes (AddField x4, ChangeField x3, DeleteField, RenameField, ChangeMeta x5, RenameModel, DeleteModel) alone and in all ordered pairs, string/int payloads from the pools',
                    functions=['evolve/evolve_app_task.py EvolveAppTask.get_evolution_content', 'mutations/*.py get_hint_params, generate_hint, __str__'] + SER),
